@@ -33,6 +33,8 @@ EXPLANATION = (
   ' (FIN-regex) as in C13 for the white-space collapsing substitution;'
   ' (ORD-style) as in C13: the display test that prunes an element runs after every source of its display value has been applied (animation, specified, initial values);'
   + common.SHARED_CLAUSES['validators'] + common.SHARED_CLAUSES['truthy']
+  + " (PRUNE-sites) every `return None` of ISD._process_element is one of the grounds for leaving an element out of a snapshot - inactive at the offset, another region, display=none, the final emptiness rule; any other site, evaluated over every element kind with and without children, drops only what the final rule would drop (never an element with children, never an empty part of a ruby container);"
+  + " (COVER-regions) ISD.significant_times, interpreted with the per-region clone and the collector replaced by recorders, gives every region of the document - whatever it specifies, display=none included - its own single-region document and lets the collector visit that region and the body;"
 )
 RULE_TEXT = "per guard x ordering table, per grid, per call site, per truth table"
 UNDECIDED = ["interval arithmetic under arbitrary nesting as values", "text appears once each, in document order, nothing moved between regions (data dependent)",
@@ -132,6 +134,10 @@ def check_default_region(ctx):
 
 
 def run(ctx):
+  from ..rules import isdrules as _isdr3
+  ctx.floor("COVER-regions", "sample documents decided", _isdr3.check_region_docs_cover(ctx), 3)
+  from ..rules import isdrules as _isdr
+  ctx.floor("PRUNE-sites", "`return None` sites of _process_element", _isdr.check_prune_sites(ctx, ctx.ix.func("ttconv.isd:ISD._process_element")), 4)
   common.check_shared_helpers(ctx, validators=True, truthy_modules=["ttconv.model", "ttconv.isd"])
   ix = ctx.ix
   n = isdrules.check_activity_guards(ctx)
